@@ -198,4 +198,4 @@ LEVEL_TEXT = ("Lean theorems C11_encode_partitions / C11_plink_slices prove, for
               "statement itself is evaluated on the implementation's output.")
 LEVEL_NOTE = ("Trusted: Lean kernel + {propext, Quot.sound, Classical.choice}; the hand model of np.array_split "
               "(validated by correspondence, not proved); float ceil exact below 2^53.")
-TECHNIQUE = "Lean 4 theorem (induction/omega) over a hand model + differential correspondence with the real functions"
+TECHNIQUE = "Lean 4 theorem (induction/omega) over a hand model whose pieces are regenerated from the source (Gen.Partitions) and bridged by lemmas + differential correspondence with the real functions"
